@@ -210,7 +210,12 @@ namespace cnl {
         [[nodiscard]] constexpr auto operator()(Input const& from) const
         {
             // TODO: unsigned specialization
-            return static_cast<result>(from + half());
+            auto const biased = from + half();
+            auto const truncated = static_cast<result>(biased);
+            return (biased < Input{} && biased < static_cast<Input>(truncated))
+                         ? static_cast<result>(_impl::from_rep<result>(
+                                 static_cast<ResultRep>(_impl::to_rep(truncated) - 1)))
+                         : truncated;
         }
     };
 
